@@ -522,6 +522,71 @@ var ruleF7 = &Rule{
 					}
 				}
 				if bad != "" {
+					// the function may hand the failure to its caller, which then starts the drainer: every call site must, on the
+					// path where the returned error is not nil, pass a drain of the same channel before it returns
+					if _, isCell := cell.(*ssa.FieldAddr); isCell && fn.Signature.Results().Len() > 0 {
+						sites := callSitesOf(c, fn)
+						lifted := len(sites) > 0
+						for _, site := range sites {
+							sv, ok := site.(ssa.Value)
+							if !ok {
+								lifted = false
+								continue
+							}
+							caller := site.Parent()
+							isNilK := func(v ssa.Value) bool { k, ok := v.(*ssa.Const); return ok && k.Value == nil }
+							isRes := func(v ssa.Value) bool {
+								if v == sv {
+									return true
+								}
+								ex, ok := v.(*ssa.Extract)
+								return ok && ex.Tuple == sv
+							}
+							seen := map[*ssa.BasicBlock]bool{}
+							var walk func(b *ssa.BasicBlock, from int) bool // true: a return is reached without a drain
+							walk = func(b *ssa.BasicBlock, from int) bool {
+								for i := from; i < len(b.Instrs); i++ {
+									ins := b.Instrs[i]
+									if isDrainCall(ins) {
+										return false
+									}
+									switch x := ins.(type) {
+									case *ssa.Return:
+										return true
+									case *ssa.If:
+										if cmp, ok := x.Cond.(*ssa.BinOp); ok && (cmp.Op == token.NEQ || cmp.Op == token.EQL) && ((isRes(cmp.X) && isNilK(cmp.Y)) || (isRes(cmp.Y) && isNilK(cmp.X))) {
+											next := b.Succs[0]
+											if cmp.Op == token.EQL {
+												next = b.Succs[1]
+											}
+											if seen[next] {
+												return false
+											}
+											seen[next] = true
+											return walk(next, 0)
+										}
+									}
+								}
+								for _, sb := range b.Succs {
+									if !seen[sb] {
+										seen[sb] = true
+										if walk(sb, 0) {
+											return true
+										}
+									}
+								}
+								return false
+							}
+							if walk(site.Block(), instrIndex(site.(ssa.Instruction))+1) {
+								lifted = false
+							}
+							_ = caller
+						}
+						if lifted {
+							obls = append(obls, Obl{Key: key, Pos: c.pos(recv.Pos()), Status: OK, Msg: fmt.Sprintf("%d early exits hand the error to the caller, which drains at every call site", nExits)})
+							continue
+						}
+					}
 					obls = append(obls, Obl{Key: key, Pos: c.pos(badPos), Status: Violation,
 						Msg: "the loop over the upstream channel (" + c.pos(recv.Pos()) + ") can be left before the channel is closed without a goroutine draining it: the producing stage stays blocked in its send, and with it the database scan and its open rows"})
 				} else {
